@@ -87,13 +87,22 @@ def _pq_completion(P):
     ridx = np.argmin(np.abs(-1. - real_roots))
     real_roots = np.delete(real_roots, ridx)
 
-    # choose real roots in +/- pairs
+    # choose real roots in +/- pairs: a real root of Q is a double root of
+    # Q * Q^*, which root finding splits into two values whose errors (of
+    # order sqrt(machine eps)) cancel in their mean
     real_roots = np.sort(real_roots)
-    real_roots = real_roots[::2]
+    if real_roots.size % 2 == 0:
+        real_roots = (real_roots[::2] + real_roots[1::2]) / 2
+    else:
+        real_roots = real_roots[::2]
 
     # purely imaginary roots of Q come in +/- pairs as well, and each appears
     # twice among the roots of Q * Q^*: keep one copy and include its negative
-    imag_roots = np.sort(imag_roots)[::2]
+    imag_roots = np.sort(imag_roots)
+    if imag_roots.size % 2 == 0:
+        imag_roots = (imag_roots[::2] + imag_roots[1::2]) / 2
+    else:
+        imag_roots = imag_roots[::2]
     imag_roots = np.r_[imag_roots, -imag_roots]
 
     # include negative conjugate of complex roots
